@@ -36,7 +36,7 @@ pub fn grow_cfg_page(second: u8, page: u16) -> DbCfg {
 		2 => cols.push(ColCfg::btree()),
 		_ => {},
 	}
-	DbCfg { cols, zero_salt: true, sync_wal: true, sync_data: true, always_flush: false }
+	DbCfg { cols, zero_salt: true, sync_wal: true, sync_data: true, always_flush: false, salt_from_meta: false, stats: false }
 }
 
 pub fn scenario(max_blocks: usize, max_id: u16) -> impl Strategy<Value = Scenario> {
